@@ -82,6 +82,26 @@ def check_tag_pairing(ctx, q, wrapper_test=None):
     raise AnalysisError(f"{q}: recursion over the span's children not found")
   opens = tag_appends(f, flatten_if(body[:rec_idx], wrapper_test))
   closes = tag_appends(f, flatten_if(body[rec_idx + 1:], wrapper_test))
+  # list-driven emission: the tags are first collected in a local list, written from it before the children and closed
+  # from it after them - the closing pass must walk the same list backwards (reversed(L) / L[::-1]), nothing else
+  lists = {st.targets[0].id for st in body[:rec_idx] if isinstance(st, ast.Assign) and len(st.targets) == 1 and isinstance(st.targets[0], ast.Name) and isinstance(st.value, ast.List)}
+  for L in sorted(lists):
+    def walks(stmts):
+      return [lp for st in stmts for lp in ast.walk(st) if isinstance(lp, ast.For) and any(isinstance(n, ast.Name) and n.id == L for n in ast.walk(lp.iter))
+              and any(isinstance(c, ast.Call) and isinstance(c.func, ast.Attribute) and c.func.attr == "append_text" for c in ast.walk(lp))]
+    before, after = walks(body[:rec_idx]), walks(body[rec_idx + 1:])
+    if not before or not after:
+      continue
+    fwd = all(isinstance(lp.iter, ast.Name) for lp in before)
+    def backwards(it):
+      if isinstance(it, ast.Call) and isinstance(it.func, ast.Name) and it.func.id == "reversed" and len(it.args) == 1 and isinstance(it.args[0], ast.Name) and it.args[0].id == L:
+        return True
+      return isinstance(it, ast.Subscript) and isinstance(it.value, ast.Name) and it.value.id == L and isinstance(it.slice, ast.Slice) and it.slice.lower is None and it.slice.upper is None \
+        and isinstance(it.slice.step, ast.UnaryOp) and isinstance(it.slice.step.op, ast.USub) and isinstance(it.slice.step.operand, ast.Constant) and it.slice.step.operand.value == 1
+    ctx.check(fwd and all(backwards(lp.iter) for lp in after), "PAIR-tags", f"{q}|tags collected in `{L}` are closed in reverse order of opening", ctx.where(f.module, after[0]),
+              f"opened by walking `{L}`, closed by walking it backwards",
+              f"the tags collected in `{L}` are closed by iterating `{short(after[0].iter, 50)}`: only the exact reverse of the opening order (reversed({L}) or {L}[::-1]) nests the tags properly "
+              "for every combination of styles (sorting by tag text, for instance, closes </font> before </b>)")
   ctx.floor("PAIR-tags", f"opening tags in {f.short}", len(opens), 3)
   key = f"{q}|closing tags mirror opening tags"
   import re as _re
